@@ -581,7 +581,7 @@ def list_time_varying_covariates(model: Model):
     []
 
     """
-    cov_labels = model.datainfo.typeix['covariate'].names
+    cov_labels = [c.name for c in model.datainfo if c.type == 'covariate' and not c.drop]
     if len(cov_labels) == 0:
         return []
     else:
